@@ -42,7 +42,8 @@ def run(chk, repo):
     chk.attempt(w3, chk, op)
     from .common_rules import stateless_constructs
     chk.attempt(stateless_constructs, chk, repo, "C05-F8")
-    chk.attempt(w4, chk, op)
+    chk.attempt(nesting_on_copies, chk, repo)
+    chk.attempt(w4, chk, op, covered_by="nesting_on_copies", rules=("C10-W4",))
     chk.attempt(writer_pure, chk, repo)
     chk.attempt(writer_pure_structural, chk, op, covered_by="writer_pure", rules=("C10-W8",))
     chk.attempt(g3_threading, chk, op, "C10-G3")
@@ -375,3 +376,42 @@ def w4(chk, op):
             ok = "deepcopy" in norm(d)
     chk.require(ok or n_mut == 0, "C10-W4", op.where(mi), "move_items pops only from a deep copy of its input",
                 "move_items pops from (an alias of) its input mapping", key="move_items:deepcopy")
+
+
+def nesting_on_copies(chk, repo):
+    """C10-W10: hierarchy.Group evaluated by the checker's interpreter (the package's own __post_init__ / __setitem__ / _adjust_item):
+    a group that is nested into another one - at construction and by item assignment, once and twice - is itself left as it was
+    (path, url, the dict of its members, its own children): nesting works on copies.  A group adjusted in place changes under the
+    caller who still holds it (the tree returned by an earlier open, a cached group)."""
+    from collections import OrderedDict
+    from ..shapes import Const, DictS, Fn, Interp, NonTermination, Obj, ShapeError, _Raise
+    chk.rule("C10-W10", "nesting a group into another (constructor, item assignment, twice) leaves the nested group object untouched", 3)
+    hm = repo.module("ceos_alos2.hierarchy")
+    where = f"{hm.relpath}:Group._adjust_item"
+    I = Interp(repo)
+    I.real_hierarchy = True
+    sc = I.module_scope(hm)
+    G = I.lookup("Group", sc)
+
+    def snap(g):
+        d = g.fields.get("data")
+        return (repr(g.fields.get("path")), repr(g.fields.get("url")), id(d), tuple((k, id(v)) for k, v in d.items.items()) if isinstance(d, DictS) else None)
+    try:
+        leaf = I.call(G, [], OrderedDict(path=Const(None), url=Const(None), data=DictS(), attrs=DictS({"k": Const(1)})))
+        child = I.call(G, [], OrderedDict(path=Const(None), url=Const(None), data=DictS(OrderedDict(leaf=leaf)), attrs=DictS()))
+        before_child, before_leaf = snap(child), snap(leaf)
+        p1 = I.call(G, [], OrderedDict(path=Const("/"), url=Const("memory://a"), data=DictS(OrderedDict(child=child)), attrs=DictS()))
+        chk.require(snap(child) == before_child and snap(leaf) == before_leaf, "C10-W10", where, "a group handed to the constructor of its parent is left as it was",
+                    f"after Group(path='/', url=.., data={{'child': child}}) the child object itself has path/url/members {snap(child)[:2]} (before: {before_child[:2]}): nesting adjusts the caller's object in place",
+                    key="nesting:constructor")
+        p2 = I.call(G, [], OrderedDict(path=Const("/other"), url=Const("memory://b"), data=DictS(), attrs=DictS()))
+        I.call(I.getattr(p2, "__setitem__"), [Const("again"), child], {})
+        chk.require(snap(child) == before_child and snap(leaf) == before_leaf, "C10-W10", where, "a group assigned into a second parent is left as it was",
+                    f"after parent['again'] = child the child object itself has path/url/members {snap(child)[:2]} (before: {before_child[:2]})", key="nesting:setitem")
+        got1 = p1.fields["data"].items.get("child") if isinstance(p1.fields.get("data"), DictS) else None
+        got2 = p2.fields["data"].items.get("again") if isinstance(p2.fields.get("data"), DictS) else None
+        ok = isinstance(got1, Obj) and isinstance(got2, Obj) and got1 is not child and got2 is not child and repr(got1.fields.get("path")) != repr(got2.fields.get("path"))
+        chk.require(ok, "C10-W10", where, "each parent holds its own adjusted copy (own path / url)",
+                    f"the two parents hold {'the caller object itself' if got1 is child or got2 is child else 'copies with the same path'}: a group nested twice is shared between the trees", key="nesting:independent")
+    except (ShapeError, NonTermination, RecursionError, _Raise) as e:
+        raise AnalysisError(f"{where}: nesting cannot be evaluated on model groups: {str(e)[:160]}")
